@@ -34,6 +34,10 @@ var c14templates = []string{
 	`<% let a = [1, 2, 3] %><% a = a + n %><% a[0] = n %><%= a[0] %>,<%= a[3] %>,<%= len(a) %>`,
 	`<% let a = [1, 2, 3, 4, 5] %><%= for (i) in [0, 1, 2] { %><% a[i] = a[i] + n %><% } %><% a = a + name %><%= a %>`,
 	`<% let h = {"k": 1, "j": "x"} %><% h["k"] = n %><% h[name] = n %><%= h["k"] %><%= len(h) %>`,
+	// plain assignment to a variable that lives in the shared parent: the execution's own business
+	`<% shared = shared + name %><%= shared %>|<% counter = counter + n + 1 %><%= counter %>`,
+	`<% let bump = fn() { counter = counter + 10
+ return counter } %><%= bump() %>,<%= bump() %>|<%= for (i) in [1, 2] { %><% counter = counter + i %><%= counter %>;<% } %>`,
 	// a slice with spare capacity held by the shared parent: every execution appends to it
 	`<% let ys = sharedxs + name %><% let zs = sharedxs + n %><%= ys[2] %>|<%= zs[2] %>|<%= len(sharedxs) %>`,
 	// a helper that fills defaults into the options map it is given, called WITHOUT options
@@ -174,6 +178,7 @@ func init() {
 							parent = plush.NewContext()
 							parent.Set("partialFeeder", func(string) (string, error) { return `[<%= who %>]`, nil })
 							parent.Set("shared", "S")
+							parent.Set("counter", 100)
 							xs := make([]interface{}, 2, 16)
 							xs[0], xs[1] = "x0", "x1"
 							parent.Set("sharedxs", xs)
@@ -219,6 +224,12 @@ func init() {
 							// sequential and the concurrent run would otherwise cancel out
 							if strings.Contains(src, "tagopt(") {
 								if abs := fmt.Sprintf("g%d-field|xg%d-field|mine", g%3, g%3); want[g] != abs {
+									e.Violate("c14-output-differs", fmt.Sprintf("template %q goroutine %d (%s, cache=%v): run alone it gives %q, its data says %q", src, g, mode, cache, want[g], abs), map[string]interface{}{"template": src, "mode": mode, "cache": cache})
+									break
+								}
+							}
+							if strings.HasPrefix(src, "<% shared = shared + name %>") && mode == "sharedparent" {
+								if abs := fmt.Sprintf("Sg%d|%d", g%3, 100+g%4+1); want[g] != abs {
 									e.Violate("c14-output-differs", fmt.Sprintf("template %q goroutine %d (%s, cache=%v): run alone it gives %q, its data says %q", src, g, mode, cache, want[g], abs), map[string]interface{}{"template": src, "mode": mode, "cache": cache})
 									break
 								}
